@@ -177,7 +177,7 @@ package aper
 //@ func (*perRawBitData).putBitString
 //@ prop C03 C04
 //@ requires einv: vcEInv(pd) && len(pd.bytes) <= 1<<24
-//@ requires bits: numBits >= 1 && numBits <= 1<<20 && uint64(len(bytes))*8 >= uint64(numBits) && len(bytes) <= 1<<20
+//@ requires bits: numBits <= 1<<20 && uint64(len(bytes))*8 >= uint64(numBits) && len(bytes) <= 1<<20
 //@ requires clean: numBits&7 == 0 || bytes[(numBits-1)>>3]&(0xff>>(numBits&7)) == 0
 //@ let b0 := vcBitLen(pd)
 //@ let old0 := append([]byte(nil), pd.bytes...)
